@@ -63,14 +63,6 @@ def okList (f : α → Sexp) : Option (List α) → Sexp
   | some xs => .list [.atom "ok", .list (xs.map f)]
   | none => .atom "N"
 
-/-- white space outside the root element is not reported by a parser -/
-def dropTopWs : Nat → List FEv → List FEv
-  | _, [] => []
-  | d, .start n a :: es => .start n a :: dropTopWs (d + 1) es
-  | d, .end_ n :: es => .end_ n :: dropTopWs (d - 1) es
-  | 0, .other (.text s f) :: es => if s.all Reader.isSpace then dropTopWs 0 es else .other (.text s f) :: dropTopWs 0 es
-  | d, e :: es => e :: dropTopWs d es
-
 def handle : List Sexp → Option Sexp
   | [.atom "emptytag", s] => do
       let s ← streamOfSexp? s
@@ -123,11 +115,8 @@ def handle : List Sexp → Option Sexp
                    ofBool inIdem, ofBool idemHolds, ofBool inInput, ofBool inputHolds])
   | [.atom "reparse", .str t] =>
       -- what XMLParser + EmptyTagFilter deliver for this text, according to the specification side
-      match Reader.tokenize t with
-      | some toks =>
-          match reparseX PSt.init (dropTopWs 0 toks) with
-          | some xs => some (.list [.atom "ok", .list (xs.map xev)])
-          | none => some (.atom "N")
+      match parseText t with
+      | some xs => some (.list [.atom "ok", .list (xs.map xev)])
       | none => some (.atom "N")
   | [.atom "coalesce", s] => do
       let s ← streamOfSexp? s
